@@ -427,6 +427,103 @@ Proof.
   assert (power_reduction = S) by reflexivity. nia.
 Qed.
 
+(** ** No panic when the worst case can be evaluated
+
+    The parameter validator of x/inflation (after the repair of the C18 finding) evaluates the
+    provision once, for period 0, one epoch per period and bonded ratio 0, and rejects the
+    parameters if that evaluation panics.  That single evaluation dominates all others: the decay
+    term is largest at period 0, the incentive is largest at bonded ratio 0, dividing by one
+    epoch per period is the largest quotient, and every operation of the formula is monotone on
+    non-negative values.  So validated parameters need no overflow guard. *)
+Lemma rquo_int_one a : 0 <= a -> rquo a (of_int 1) = a.
+Proof.
+  intros Ha. pose proof S_pos as HS. unfold rquo, of_int.
+  replace (a * S * S) with ((a * S) * (1 * S)) by ring.
+  rewrite Z.quot_mul by lia. apply chop_round_exact. exact Ha.
+Qed.
+
+Theorem calc_worst_case e v0 :
+  ValidExp e -> calc_provision e 0%N 1 0 = Some v0 ->
+  forall x epp bonded, 0 < epp -> 0 <= bonded ->
+  calc_provision e x epp bonded = Some (pure_calc e x epp bonded).
+Proof.
+  intros V H0 x epp bonded He Hb.
+  pose proof S_pos as HS.
+  assert (Va := va e V). assert (Vc := vc e V). assert (Vt := vt e V). assert (Vm := vm e V).
+  (* what the worst-case evaluation tells *)
+  assert (W : Z.abs (ec_a e + ec_c e) < bound /\ Z.abs (rquo (ec_maxvar e) (ec_target e)) < bound /\
+              Z.abs (S + ec_maxvar e) < bound /\
+              Z.abs (rmul (ec_a e + ec_c e) (S + ec_maxvar e)) < bound /\
+              Z.abs (rmul (ec_a e + ec_c e) (S + ec_maxvar e) * power_reduction) < bound).
+  { revert H0. unfold calc_provision, obind, one. cbn [power_chk].
+    destruct (sub S (ec_r e)) as [decay|] eqn:E1; [|discriminate].
+    unfold one.
+    destruct (mul (ec_a e) S) as [t1|] eqn:E3; [|discriminate].
+    destruct (add t1 (ec_c e)) as [ed|] eqn:E4; [|discriminate].
+    destruct (quo (ec_maxvar e) (ec_target e)) as [q|] eqn:E5; [|discriminate].
+    replace (ec_target e <=? 0) with false by (symmetry; apply Z.leb_gt; lia).
+    destruct (mul 0 q) as [sb|] eqn:E6; [|discriminate].
+    destruct (add S (ec_maxvar e)) as [t2|] eqn:E7; [|discriminate].
+    destruct (sub t2 sb) as [inc|] eqn:E8; [|discriminate].
+    destruct (mul ed inc) as [pp|] eqn:E9; [|discriminate].
+    destruct (quo pp (of_int 1)) as [ep|] eqn:E10; [|discriminate].
+    intros E11.
+    unfold mul in E3. apply chk_some in E3 as [-> _]. rewrite rmul_one_r in E4 by lia.
+    unfold add in E4. apply chk_some in E4 as [-> B4].
+    unfold quo in E5. destruct (ec_target e =? 0); [discriminate|]. fold (rquo (ec_maxvar e) (ec_target e)) in E5.
+    apply chk_some in E5 as [-> B5].
+    unfold mul in E6. apply chk_some in E6 as [-> _].
+    assert (Z0 : rmul 0 (rquo (ec_maxvar e) (ec_target e)) = 0).
+    { unfold rmul. rewrite Z.mul_0_l. apply (chop_round_exact 0). lia. }
+    rewrite Z0 in E8.
+    unfold add in E7. apply chk_some in E7 as [-> B7].
+    unfold sub in E8. apply chk_some in E8 as [-> _]. rewrite Z.sub_0_r in E9.
+    unfold mul in E9. apply chk_some in E9 as [-> B9].
+    assert (P0 : 0 <= rmul (ec_a e + ec_c e) (S + ec_maxvar e)) by (apply rmul_nonneg; lia).
+    unfold quo in E10. destruct (of_int 1 =? 0); [discriminate|].
+    fold (rquo (rmul (ec_a e + ec_c e) (S + ec_maxvar e)) (of_int 1)) in E10.
+    rewrite rquo_int_one in E10 by exact P0. apply chk_some in E10 as [-> _].
+    unfold mul in E11. rewrite rmul_reduction in E11. apply chk_some in E11 as [_ B11].
+    repeat split; assumption. }
+  destruct W as (W1 & W2 & W3 & W4 & W5).
+  set (pp0 := rmul (ec_a e + ec_c e) (S + ec_maxvar e)) in *.
+  assert (P0 : 0 <= pp0) by (apply rmul_nonneg; lia).
+  pose proof power_reduction_pos as HPR.
+  (* the general evaluation, operation by operation *)
+  pose proof (decay_base_bounds e V) as Hdb.
+  pose proof (power_bounds _ x Hdb) as Hpw.
+  pose proof (pure_decay_bounds e x V) as Hd.
+  pose proof (pure_incentive_bounds e bonded V Hb) as Hi.
+  pose proof (min_target_bounds e bonded V Hb) as Hmin.
+  pose proof bound_big as HB.
+  unfold calc_provision, obind, one.
+  unfold sub at 1. rewrite chk_ok by lia.
+  rewrite (power_chk_small _ x Hdb).
+  assert (H1 : 0 <= rmul (ec_a e) (power (S - ec_r e) x) <= ec_a e).
+  { split; [apply rmul_nonneg; lia|apply rmul_le_l; lia]. }
+  unfold mul at 1. rewrite chk_ok by lia.
+  unfold add at 1. rewrite chk_ok by lia.
+  assert (Hq0 : 0 <= rquo (ec_maxvar e) (ec_target e)) by (apply rquo_nonneg; lia).
+  unfold quo at 1. replace (ec_target e =? 0) with false by (symmetry; apply Z.eqb_neq; lia).
+  fold (rquo (ec_maxvar e) (ec_target e)). rewrite chk_ok by exact W2.
+  pose proof (sub_bounds _ (ec_target e) (ec_maxvar e) Hmin Vt Vm) as Hsb.
+  unfold mul at 1. rewrite chk_ok by lia.
+  unfold add at 1. rewrite chk_ok by exact W3.
+  unfold sub at 1. rewrite chk_ok by lia.
+  fold (pure_incentive e bonded). fold (pure_decay e x).
+  set (pp := rmul (pure_decay e x) (pure_incentive e bonded)).
+  assert (Hpp : 0 <= pp <= pp0).
+  { split; [apply rmul_nonneg; lia|]. unfold pp, pp0. apply rmul_mono; lia. }
+  unfold mul at 1. fold pp. rewrite chk_ok by lia.
+  pose proof (rquo_int_le pp epp ltac:(lia) He) as Hep.
+  pose proof (rquo_nonneg pp (of_int epp) ltac:(lia) (of_int_pos _ He)) as Hep0.
+  unfold quo at 1. replace (of_int epp =? 0) with false by (symmetry; apply Z.eqb_neq; pose proof (of_int_pos _ He); lia).
+  fold (rquo pp (of_int epp)). rewrite chk_ok by lia.
+  unfold mul. fold (pure_calc e x epp bonded).
+  rewrite chk_ok; [reflexivity|].
+  unfold pure_calc. fold (pure_decay e x). fold pp. rewrite rmul_reduction. nia.
+Qed.
+
 (** * Part B.  The end-of-epoch hook *)
 
 Lemma truncate_int_some a q : truncate_int a = Some q -> q = Z.quot a S.
@@ -970,6 +1067,18 @@ Proof.
   intros V He Hb G. apply valid_exp_spec in V. apply Z.ltb_lt in He.
   exists (pure_calc e x epp bonded). split; [apply calc_no_panic; assumption|].
   split; [apply pure_calc_nonneg; assumption|apply pure_calc_upper; assumption].
+Qed.
+
+(* ... and without any guard for parameters the validator accepts: since the repair of the C18 finding
+   validateExponentialCalculation evaluates the provision for period 0, one epoch per period and bonded
+   ratio 0 and rejects the parameters when that panics; that evaluation dominates all others *)
+Theorem provision_no_panic_validated e x epp bonded :
+  valid_exp e = true -> (exists v0, calc_provision e 0%N 1 0 = Some v0) ->
+  valid_epp epp = true -> 0 <= bonded ->
+  exists v, calc_provision e x epp bonded = Some v /\ 0 <= v.
+Proof.
+  intros V (v0 & E0) He Hb. apply valid_exp_spec in V. apply Z.ltb_lt in He.
+  exists (pure_calc e x epp bonded). split; [eapply calc_worst_case; eauto|apply pure_calc_nonneg; assumption].
 Qed.
 
 (* the bonding incentive used inside the provision lies in [1, 1 + maxVariance] (the
